@@ -228,6 +228,8 @@ func (configgen *ConfigGeneratorImpl) buildGatewayListeners(builder *ListenerBui
 		}
 		listeners = append(listeners, ml.mutable.Listener)
 	}
+	// mutableopts is a map: keep the order of the listeners stable.
+	listeners = slices.SortBy(listeners, func(l *listener.Listener) string { return l.Name })
 	// We'll try to return any listeners we successfully marshaled; if we have none, we'll emit the error we built up
 	err := errs.ErrorOrNil()
 	if err != nil {
